@@ -184,6 +184,9 @@ fn c03_history<const N: usize, const K: usize>(allow_nan: bool) {
 #[kani::proof] #[kani::unwind(6)] fn c03_step_n4() { c03_step::<4>(false) }
 #[kani::proof] #[kani::unwind(7)] fn c03_step_n5() { c03_step::<5>(false) }
 #[kani::proof] #[kani::unwind(8)] fn c03_step_n6() { c03_step::<6>(false) }
+#[kani::proof] #[kani::unwind(10)] fn c03_step_n8() { c03_step::<8>(false) }
+#[kani::proof] #[kani::unwind(12)] fn c03_step_n10() { c03_step::<10>(false) }
+#[kani::proof] #[kani::unwind(14)] fn c03_step_n12() { c03_step::<12>(false) }
 // C16: the same step with every f64 query, NaN included
 #[kani::proof] #[kani::unwind(3)] fn c16_step_anyf64_n1() { c03_step::<1>(true) }
 #[kani::proof] #[kani::unwind(4)] fn c16_step_anyf64_n2() { c03_step::<2>(true) }
@@ -261,6 +264,9 @@ fn c12_evaluate_v<const N: usize, const K: usize>(allow_nan: bool) {
 #[kani::proof] #[kani::unwind(6)] fn c12_n4_k3() { c12_evaluate_v::<4, 3>(false) }
 #[kani::proof] #[kani::unwind(6)] fn c12_n3_k4() { c12_evaluate_v::<3, 4>(false) }
 #[kani::proof] #[kani::unwind(6)] fn c12_n4_k4() { c12_evaluate_v::<4, 4>(false) }
+#[kani::proof] #[kani::unwind(8)] fn c12_n5_k2() { c12_evaluate_v::<5, 2>(false) }
+#[kani::proof] #[kani::unwind(9)] fn c12_n6_k2() { c12_evaluate_v::<6, 2>(false) }
+#[kani::proof] #[kani::unwind(11)] fn c12_n8_k2() { c12_evaluate_v::<8, 2>(false) }
 #[kani::proof] #[kani::unwind(5)] fn c16_evaluate_v_anyf64_n3_k3() { c12_evaluate_v::<3, 3>(true) }
 #[kani::proof]
 #[kani::should_panic]
@@ -422,6 +428,8 @@ c15! {
     c15_mulassign_n1, 1, 1, 4; c15_mulassign_n2, 2, 1, 5; c15_mulassign_n3, 3, 1, 6; c15_mulassign_n4, 4, 1, 7;
     c15_neg_n1, 1, 2, 4; c15_neg_n2, 2, 2, 5; c15_neg_n3, 3, 2, 6; c15_neg_n4, 4, 2, 7;
     c15_translate_n1, 1, 3, 4; c15_translate_n2, 2, 3, 5; c15_translate_n3, 3, 3, 6; c15_translate_n4, 4, 3, 7;
+    c15_mul_n5, 5, 0, 8; c15_mulassign_n5, 5, 1, 8; c15_neg_n5, 5, 2, 8; c15_translate_n5, 5, 3, 8;
+    c15_mul_n8, 8, 0, 11; c15_mulassign_n8, 8, 1, 11; c15_neg_n8, 8, 2, 11; c15_translate_n8, 8, 3, 11;
     c08_pwderiv_n1, 1, 4, 4; c08_pwderiv_n2, 2, 4, 5; c08_pwderiv_n3, 3, 4, 6; c08_pwderiv_n4, 4, 4, 7;
 }
 /// Segment-level operations (loop-free: complete).
@@ -464,7 +472,7 @@ impl Evaluate for ITag {
             if ILOG_N < 16 { ILOG_ID[ILOG_N] = self.id; ILOG_X[ILOG_N] = x.to_bits(); }
             ILOG_N += 1;
         }
-        self.k + self.id as f64
+        self.k + (self.id as f64) * unsafe { ISCALE }
     }
 }
 impl Translate for ITag {
@@ -501,7 +509,7 @@ fn check_chain<const N: usize>(segs: &[Segment<STag>; N], got: &[Segment<ITag>],
         assert!(got[i].poly.id == segs[i].poly.0, "[spec] piece i is an antiderivative of piece i");
         if i >= first {
             // value of every piece at any x is y0 (k + id == y0): adjacent pieces agree at the interior breakpoints
-            assert!(got[i].poly.k + got[i].poly.id as f64 == y0, "[spec] adjacent pieces agree in value at the breakpoint; the first passes through the knot");
+            assert!(got[i].poly.k + (got[i].poly.id as f64) * unsafe { ISCALE } == y0, "[spec] adjacent pieces agree in value at the breakpoint; the first passes through the knot");
             assert!(got[i].poly.trans == 1, "[spec] each piece is shifted exactly once");
             let want_x = if i == first { x0 } else { segs[i - 1].end };
             unsafe {
@@ -515,17 +523,33 @@ fn check_chain<const N: usize>(segs: &[Segment<STag>; N], got: &[Segment<ITag>],
     unsafe { assert!(ILOG_N == log, "[spec] no other evaluations"); }
 }
 fn small_int() -> f64 { let v: i8 = kani::any(); kani::assume(v > -100 && v < 100); v as f64 }
+/// SCALE used by ITag::evaluate: 1.0 normally; 2^-60 in the tiny-magnitude variant (all values stay exact multiples of 2^-60,
+/// so a shift that is skipped "because it is below some absolute tolerance" is visible)
+static mut ISCALE: f64 = 1.0;
 fn c11_integral<const N: usize>(which: u8) {
+    c11_integral_scaled::<N>(which, 1.0)
+}
+fn c11_integral_scaled<const N: usize>(which: u8, scale: f64) {
+    unsafe { ISCALE = scale; }
     let segs = s_segments::<N>();
     let x0: f64 = kani::any();
     kani::assume(!x0.is_nan());
-    let y0 = small_int();
+    let y0 = small_int() * scale;
     let knot = Knot { x: x0, y: y0 };
     unsafe { ILOG_N = 0; }
     match which {
         0 => { let r = Piecewise { segments: segs.to_vec() }.integral(knot); check_chain(&segs, &r.segments, 0, x0, y0); }
         1 => { let r: Vec<Segment<ITag>> = Segment::integral_iter_ref(segs.iter(), knot).collect(); check_chain(&segs, &r, 0, x0, y0); }
         2 => { let r: Vec<Segment<ITag>> = Segment::integral_iter(segs.to_vec(), knot).collect(); check_chain(&segs, &r, 0, x0, y0); }
+        4 => {
+            // the same through an iterator whose size hint is inexact (filter): the pieces must not depend on it
+            let r: Vec<Segment<ITag>> = Segment::integral_iter(segs.to_vec().into_iter().filter(|s| s.poly.0 > 0), knot).collect();
+            check_chain(&segs, &r, 0, x0, y0);
+        }
+        5 => {
+            let r: Vec<Segment<ITag>> = Segment::integral_iter_ref(segs.iter().filter(|s| s.poly.0 > 0), knot).collect();
+            check_chain(&segs, &r, 0, x0, y0);
+        }
         _ => {
             // indefinite(): first piece untranslated (constant 0), the rest chained from (end_0, F_0(end_0))
             let r = Piecewise { segments: segs.to_vec() }.indefinite();
@@ -538,7 +562,7 @@ fn c11_integral<const N: usize>(which: u8) {
             let mut log = 1usize;
             while i < N {
                 assert!(r.segments[i].end.to_bits() == segs[i].end.to_bits() && r.segments[i].poly.id == segs[i].poly.0, "[spec] same breakpoints and order");
-                assert!(r.segments[i].poly.k + r.segments[i].poly.id as f64 == 1.0, "[spec] adjacent pieces agree at the breakpoints");
+                assert!(r.segments[i].poly.k + (r.segments[i].poly.id as f64) * unsafe { ISCALE } == 1.0 * unsafe { ISCALE }, "[spec] adjacent pieces agree at the breakpoints");
                 unsafe {
                     assert!(ILOG_ID[log] == segs[i].poly.0 && ILOG_X[log] == segs[i - 1].end.to_bits(), "[spec] piece i anchored at the previous breakpoint");
                     assert!(ILOG_ID[log + 1] == segs[i].poly.0 && ILOG_X[log + 1] == segs[i].end.to_bits());
@@ -557,6 +581,12 @@ c11! {
     c11_iter_n1, 1, 2, 4; c11_iter_n2, 2, 2, 5; c11_iter_n3, 3, 2, 6; c11_iter_n4, 4, 2, 7;
     c11_indefinite_n1, 1, 3, 4; c11_indefinite_n2, 2, 3, 5; c11_indefinite_n3, 3, 3, 6; c11_indefinite_n4, 4, 3, 7;
 }
+const TINY: f64 = 8.673617379884035e-19; // 2^-60
+#[kani::proof] #[kani::unwind(6)] fn c11_integral_tiny_n3() { c11_integral_scaled::<3>(0, TINY) }
+#[kani::proof] #[kani::unwind(6)] fn c11_iter_tiny_n2() { c11_integral_scaled::<2>(2, TINY) }
+#[kani::proof] #[kani::unwind(6)] fn c11_indefinite_tiny_n3() { c11_integral_scaled::<3>(3, TINY) }
+#[kani::proof] #[kani::unwind(6)] fn c11_iter_filter_n3() { c11_integral::<3>(4) }
+#[kani::proof] #[kani::unwind(6)] fn c11_iter_ref_filter_n3() { c11_integral::<3>(5) }
 #[kani::proof]
 #[kani::unwind(3)]
 fn c11_empty() {
